@@ -730,6 +730,241 @@ func (r *storeRun) history(steps int, density float64) error {
 	return r.err
 }
 
+// ---- replay of TLC-generated schedules (StoreGen.tla)
+
+type schedTok struct {
+	T string `json:"t"`
+	D int    `json:"d"`
+}
+
+// jobState: the parked background job of a replayed schedule
+type jobState struct {
+	parked *arrival // arrived, emitted, not yet resumed
+	active bool
+}
+
+// advance resumes the parked job and takes its next arrival(s): stutter arrivals are passed through, the first real one stays parked.
+// Returns false when the job has ended (or none is active).
+func (r *storeRun) advance(j *jobState, pendingSearch **arrival) (bool, error) {
+	if !j.active {
+		return false, nil
+	}
+	for {
+		if j.parked != nil {
+			close(j.parked.resume)
+			j.parked = nil
+		}
+		a, err := r.wait()
+		if err != nil {
+			return false, err
+		}
+		if a.search { // the parked search reports in while the job runs: remember it
+			*pendingSearch = a
+			continue
+		}
+		r.emit(a.op, a.kv)
+		if a.op == "bg.flush.end" || a.op == "compact.end" {
+			close(a.resume)
+			j.active = false
+			r.stepping.Store(false)
+			return false, nil
+		}
+		j.parked = a
+		return true, nil
+	}
+}
+
+func (r *storeRun) drain(j *jobState, pendingSearch **arrival) error {
+	for j.active {
+		if _, err := r.advance(j, pendingSearch); err != nil {
+			return err
+		}
+	}
+	return nil
+}
+
+// replay executes one generated schedule on a fresh directory and records the hook-level trace as usual.
+func (r *storeRun) replay(toks []schedTok) error {
+	r.dir = filepath.Join(r.root, []string{"db", "db[v1]", "in dex*?", "a{b,c}#%"}[r.hist%4])
+	os.RemoveAll(r.dir)
+	r.emit("reset", E{"memcap": r.memcap, "compactn": r.compactn})
+	fv, _ := comet.NewFlatIndex(2, comet.L2Squared)
+	r.mirror = comet.NewHybridSearchIndex(fv, comet.NewBM25SearchIndex(), comet.NewRoaringMetadataIndex())
+	r.live, r.added, r.nextID = map[int]bool{}, map[int]bool{}, 1
+	r.st = nil
+	job := &jobState{}
+	var pending *arrival
+	var pendingDone chan struct{}
+	finishSearch := func() error {
+		if pendingDone == nil {
+			return nil
+		}
+		r.parkSearchG.Store(0)
+		if pending != nil {
+			close(pending.resume)
+			pending = nil
+		}
+		select {
+		case <-pendingDone:
+		case <-time.After(20 * time.Second):
+			return fmt.Errorf("watchdog: parked search did not finish")
+		}
+		pendingDone = nil
+		return nil
+	}
+	// client calls are not placed inside the compaction swap (the code holds its lock there): let the job leave it first
+	leaveSwap := func() error {
+		for job.active && r.inSwap.Load() {
+			if _, err := r.advance(job, &pending); err != nil {
+				return err
+			}
+		}
+		return nil
+	}
+	for _, tk := range toks {
+		if r.err != nil {
+			break
+		}
+		if r.st == nil && tk.T != "open" {
+			continue
+		}
+		switch tk.T {
+		case "open":
+			if r.st != nil {
+				continue
+			}
+			st, ok := r.open(r.dir)
+			if !ok {
+				return fmt.Errorf("open failed")
+			}
+			r.st = st
+		case "close":
+			if err := finishSearch(); err != nil {
+				return err
+			}
+			if err := r.drain(job, &pending); err != nil {
+				return err
+			}
+			if err := r.closeStore(); err != nil {
+				return err
+			}
+			r.st = nil
+		case "step":
+			more, err := r.advance(job, &pending)
+			if err != nil {
+				return err
+			}
+			// a crash image at this hook point (the worker is parked at it), as in the seeded histories
+			if more && r.imageRate > 0 && !r.inSwap.Load() && pendingDone == nil && job.parked != nil && r.rng.Float64() < r.imageRate {
+				r.image(job.parked.op)
+			}
+		case "reqbg", "trigger":
+			if pendingDone != nil {
+				continue
+			}
+			if err := r.drain(job, &pending); err != nil {
+				return err
+			}
+			r.stepping.Store(true)
+			if tk.T == "reqbg" {
+				ok := r.st.VerifRequestFlush()
+				r.emit("reqbg", E{"ok": ok})
+				job.active = ok
+			} else {
+				r.emit("compact.trigger", E{})
+				r.st.TriggerCompaction()
+				job.active = true
+			}
+			if !job.active {
+				r.stepping.Store(false)
+			} else if _, err := r.advance(job, &pending); err != nil {
+				// (the worker runs to its first hook at once: its arrival is recorded here, where it really happens)
+				return err
+			}
+		case "search.start":
+			if pendingDone != nil || !r.cv {
+				continue
+			}
+			if err := leaveSwap(); err != nil {
+				return err
+			}
+			if !job.active { // nothing can happen while it is parked: run it to its end
+				r.searchOn(r.st, 100, false)
+				continue
+			}
+			pendingDone = make(chan struct{})
+			done := pendingDone
+			go func() {
+				r.parkSearchG.Store(goid())
+				r.searchFull(r.st, 100, false, false)
+				close(done)
+			}()
+			select {
+			case a := <-r.arrivals:
+				if !a.search {
+					return fmt.Errorf("unexpected arrival %s while a search starts", a.op)
+				}
+				pending = a
+			case <-done: // no segment listed: the search ran to its end
+				pendingDone = nil
+				r.parkSearchG.Store(0)
+			case <-time.After(20 * time.Second):
+				return fmt.Errorf("watchdog: search did not start")
+			}
+		case "search.finish":
+			if err := finishSearch(); err != nil {
+				return err
+			}
+		default: // client calls
+			if pendingDone != nil {
+				continue // (the generator never places a call inside a parked search)
+			}
+			if err := leaveSwap(); err != nil {
+				return err
+			}
+			switch tk.T {
+			case "add":
+				r.add(tk.D)
+			case "remove":
+				r.remove(tk.D)
+			case "rotate":
+				r.st.VerifRotate()
+				r.emit("rotate", E{})
+			case "evict":
+				r.st.VerifEvictAll()
+				r.emit("evict", E{})
+			case "flush":
+				r.flushWho.Store("fg")
+				r.emit("flush.call", E{})
+				was := r.stepping.Load()
+				err := r.st.Flush()
+				r.stepping.Store(was)
+				r.emit("flush.ret", E{"ok": err == nil})
+			case "search":
+				r.searchOn(r.st, 100, false)
+			}
+		}
+	}
+	if err := finishSearch(); err != nil {
+		return err
+	}
+	if err := r.drain(job, &pending); err != nil {
+		return err
+	}
+	if r.st != nil {
+		r.searchOn(r.st, 100, false)
+		if err := r.closeStore(); err != nil {
+			return err
+		}
+	}
+	if st, ok := r.open(r.dir); ok {
+		r.st = st
+		r.searchOn(r.st, 100, false)
+		r.closeStore()
+	}
+	return r.err
+}
+
 func (r *storeRun) closeStore() error {
 	r.flushWho.Store("close")
 	r.emit("close.call", E{})
@@ -754,6 +989,7 @@ func drvStore(args []string) error {
 	damage := cf.fs.Bool("damage", false, "damage one component file in (most) crash images")
 	comps := cf.fs.String("comps", "vtm", "configured templates")
 	vecKind := cf.fs.String("vec", "flat", "vector template: flat | ivf (trained after every open, all clusters probed) | hnsw (2M above the document count)")
+	sched := cf.fs.String("sched", "", "file of TLC-generated schedules (StoreGen.tla), one JSON token list per line")
 	bulk := cf.fs.Int("bulk", 0, "documents of one large segment written and read back by a fresh session (0: off)")
 	cf.fs.Parse(args)
 	t, err := newTrace(*cf.out)
@@ -771,6 +1007,22 @@ func drvStore(args []string) error {
 		mainG: goid(), arrivals: make(chan *arrival, 64), imageRate: *images, damageImages: *damage, vecKind: *vecKind}
 	comet.VerifSetHandler(r.handler)
 	defer comet.VerifSetHandler(nil)
+	if *sched != "" {
+		lines, err := readLines(*sched)
+		if err != nil {
+			return err
+		}
+		for i, ln := range lines {
+			var toks []schedTok
+			if err := json.Unmarshal([]byte(ln), &toks); err != nil {
+				return err
+			}
+			r.hist = i
+			if err := r.replay(toks); err != nil {
+				return fmt.Errorf("schedule %d: %w", i, err)
+			}
+		}
+	}
 	for h := 0; h < *cf.count; h++ {
 		r.hist = h
 		if err := r.history(*steps, *density); err != nil {
